@@ -317,6 +317,10 @@ func init() {
 				// file names are labels given by the caller: whatever their form, errors carry them as given
 				name := []string{"dir/in%d.soy", "./views/in%d.soy", "views//in%d.soy", "views/../in%d.soy", "in%d.soy/", "C:\\tpl\\in%d.soy", " spaced name %d.soy", "\u540d\u524d%d.soy", "a/./b/in%d.soy", "in%d"}[i%10]
 				name = fmt.Sprintf(name, i)
+				if i%5 == 3 {
+					// ... also when they hold what a formatting function would take for a verb
+					name = []string{"100%d ", "50% off ", "%s%v%[9]q", "%"}[(i/5)%4] + name + []string{"", "%", "%!"}[(i/20)%3]
+				}
 				for _, at := range sites {
 					for _, fault := range c19ParseFaults {
 						mut := insertLine(src, at, fault.line)
@@ -338,7 +342,16 @@ func init() {
 							ok = func(l int) bool { return l >= at }
 							want = fmt.Sprintf("a line in %d..%d", at, nlines)
 						}
-						if key, why := checkPos(err, name, ok, want, nlines); key != "" {
+						key, why := checkPos(err, name, ok, want, nlines)
+						if fp := errortypes.ToErrFilePos(err); key == "" && fp != nil {
+							// a parse error shows file, line and column as a prefix of its text, and none of it is garbled
+							if pre := fmt.Sprintf("%s:%d:%d:", name, fp.Line(), fp.Col()); !strings.Contains(err.Error(), pre) {
+								key, why = "message-lacks-position", fmt.Sprintf("message %q does not show %q", firstLine(errText(err)), pre)
+							} else if strings.Contains(err.Error(), "%!") && !strings.Contains(name+mut, "%!") {
+								key, why = "message-garbled", fmt.Sprintf("message %q", firstLine(errText(err)))
+							}
+						}
+						if key != "" {
 							return fw.Result{Verdict: fw.Violated, Key: "parse:" + key + ":" + fault.name, Case: map[string]interface{}{"file": name, "text": mut, "fault_line": at},
 								Msg: fmt.Sprintf("fault %q inserted as line %d of %s: %s", fault.line, at, name, why)}
 						}
